@@ -1,6 +1,6 @@
 """C20 — PathBuilder helpers and Path::transform produce the documented geometry."""
 from util import *
-from terms import fmt, subterms
+from terms import fmt, subterms, Deps
 import shared
 
 META = {
@@ -54,6 +54,10 @@ def r20_1(ctx):
             if a is None or a[0] != ('param', 2 * k + 2) or a[1] != ('param', 2 * k + 3):
                 okc = False
         ctx.check(okc, R, key + '|coords', call_line(b, bi), 'payload points are (x,y) parameter pairs in call order', 'payload of %s does not take the parameters pairwise in call order: %s' % (variant, fmt(b, op)))
+        # every call appends its op: no path returns without the push (an op that "changes nothing", e.g. a move_to to the
+        # current point, still ends the subpath / is part of the ops in call order)
+        okp, pth = an.cfg.must_pass_through(0, set([bi]))
+        ctx.check(okp, R, key + '|push on every path', call_line(b, bi), 'every returning path appends the op', '%s can return without appending its PathOp::%s (blocks %s): finish() no longer returns the ops in call order' % (m, variant, pth))
         n += 1
     ctx.floor(R, 'builder methods', n, 5)
     # new(): NonZero, empty ops
@@ -154,7 +158,30 @@ def r20_3(ctx):
                  and o[2][0][2][0][2][0] == ('field', ('param', 1), 'ops', 'raqote::path_builder::Path', None))
         clo = o[2][0][2][1] if shape else None
         shape = shape and clo[0] == 'agg' and clo[1] == 'closure' and strip_all(clo[4][0][1]) == ('param', 2)
-        ctx.check(shape, R, key + '|ops', b.loc(), 'ops = self.ops.into_iter().map(closure(transform)).collect()', 'ops is %s: not every op of self.ops mapped in order' % fmt(b, o))
+        inplace = False
+        if not shape:
+            # the same map done in place: for op in ops.iter_mut() { *op = op.transform(transform) } on the vector taken
+            # from self.ops, with no other write to it
+            ol = strip_all(o)
+            if ol[0] in ('mem', 'phi'):
+                vecl = ol[1]
+                whole = [d for d in an.defs_of.get(vecl, []) if not d.partial and d.kind in ('assign', 'local')]
+                from_self = len(whole) == 1 and strip_all(an.def_term(whole[0])) == ('field', ('param', 1), 'ops', 'raqote::path_builder::Path', None)
+                sts = [(a2, v2, pt2) for a2, v2, pt2, k2 in an.stores if k2 == 'assign' and a2[0] == 'deref']
+                okst = len(sts) == 1
+                if okst:
+                    a2, v2, pt2 = sts[0]
+                    el = strip_all(a2[1])           # the &mut PathOp yielded by the iterator
+                    v2 = strip_all(v2)
+                    okst = (el[0] == 'field' and el[4] == 'Some' and is_call(el[1], 'Iterator::next')
+                            and is_call(v2, 'PathOp::transform') and strip_all(v2[2][0]) in (('deref', el), a2, strip_all(a2)) and strip_all(v2[2][1]) in (('param', 2), ('deref', ('param', 2))))
+                    if okst:
+                        D = Deps(an)
+                        D.closure(el[1][2][0])
+                        okst = any(is_call(x, 'iter_mut') for x in D.visited) and any(x[0] in ('mem', 'phi') and x[1] == vecl for x in (D.visited | D.touched))
+                others = [d for bi2, d, ct2 in calls_in(ctx, b) if d and ct2[2] and strip_all(ct2[2][0])[0] in ('mem', 'ref') and any(x == ('mem', vecl) for x in subterms(ct2[2][0])) and d.split('::')[-1] not in ('iter_mut', 'deref_mut', 'into_iter', 'next')]
+                inplace = from_self and okst and not others
+        ctx.check(shape or inplace, R, key + '|ops', b.loc(), 'ops = self.ops mapped op by op through PathOp::transform(transform), in order', 'ops is %s: not every op of self.ops mapped in order' % fmt(b, o))
         if shape:
             cb = ctx.body(clo[2], R)
             crt = shared.ret_terms(ctx, cb)
@@ -203,6 +230,10 @@ def r20_4(ctx):
     ctx.check(from_of_arc(lt[2][1], 'x') and from_of_arc(lt[2][2], 'y'), R, key + '|line_to-start', call_line(b, lbi),
               'line_to(a.from().x, a.from().y)', 'line_to arguments are (%s, %s), expected the arc start a.from()' % (fmt(b, lt[2][1]), fmt(b, lt[2][2])))
     ctx.check(an.cfg.dominates(lbi, fbi) and lbi != fbi, R, key + '|line-before-curve', call_line(b, lbi), 'line_to precedes the curve', 'the line_to to the arc start does not precede the curve on every path')
+    okp, pth = an.cfg.must_pass_through(0, set([lbi]))
+    okq, pth2 = an.cfg.must_pass_through(0, set([fbi]))
+    ctx.check(okp and okq, R, key + '|line and curve on every path', call_line(b, lbi), 'every returning path emits the line to the arc start and the curve',
+              'arc() can return without emitting the line_to to its starting point or the curve (blocks %s): e.g. an early return for a zero sweep drops the required line from the current point to the arc\'s start and leaves the current point stale' % (pth or pth2))
     ctx.check(strip_all(fe[2][0]) == at, R, key + '|curve-of-arc', call_line(b, fbi), 'curve is generated from the same Arc', 'for_each_quadratic_bezier is not called on the Arc built from the parameters')
     clo = shared.resolve_mem(an, fe[2][1])
     if clo[0] == 'agg' and clo[1] == 'closure':
